@@ -21,5 +21,6 @@ CHECK = {
     "stages": [
         {"name": "sched", "pkg": "./checks/c20/sched",
          "sync": ["syncutil/pool.go"], "gomaxprocs": 1},
+        {"name": "race", "pkg": "./checks/c20/race", "race": True},
     ],
 }
